@@ -189,6 +189,37 @@ def dupAll : List (Block β) → List (Block β)
 def TimerInv (s : State σ) : Prop :=
   ∀ a t, alGet a s.timers = some t → ∃ p ps, alGet a s.deferred = some (p :: ps)
 
+/-! ### histories with QU queries: what "the same up to extra unicast answers" means -/
+
+section
+variable {σ ω β : Type} (H : Handler σ ω β)
+
+/-- the property's exception: a query containing a QU question -/
+def quQuery (H : Handler σ ω β) (d : Bytes) : Bool := (H.parse d).isQuery && (H.parse d).hasQU
+
+/-- `dup` is `ref` with extra outputs satisfying `ok` interleaved — the shape of "the same, except that a QU query may
+be answered by unicast twice" on the level of everything the host emits -/
+inductive ExtraOf (ok : ω → Bool) : List ω → List ω → Prop where
+  | nil : ExtraOf ok [] []
+  | both (x : ω) {r d : List ω} : ExtraOf ok r d → ExtraOf ok (x :: r) (x :: d)
+  | extra (x : ω) {r d : List ω} : ok x = true → ExtraOf ok r d → ExtraOf ok r (x :: d)
+
+/-- the second of two back-to-back copies of a QU query leaves the whole state — downstream included — as the first
+left it, and emits only outputs that pass `ok` -/
+def SecondCopyNeutral (ok : ω → Bool) : Prop :=
+  ∀ (s : State σ) (d : Bytes) (a : Addr) (p : Nat) (now : Ms) (r r' : Nat), quQuery H d = true →
+    (recv H (recv H s d a p now r).1 d a p now r').1 = (recv H s d a p now r).1 ∧
+    ∀ x ∈ (recv H (recv H s d a p now r).1 d a p now r').2.1, ok x = true
+
+/-- the handler-level condition behind it: answering the same single packet again, right after a query that ended
+with it, changes nothing downstream and emits only `ok` outputs -/
+def QueryRepeatNeutral (ok : ω → Bool) : Prop :=
+  ∀ (x : σ) (ps : List Packet) (pk : Packet) (a : Addr) (p : Nat),
+    (H.onQuery (H.onQuery x (ps ++ [pk]) a p).1 [pk] a p).1 = (H.onQuery x (ps ++ [pk]) a p).1 ∧
+    ∀ y ∈ (H.onQuery (H.onQuery x (ps ++ [pk]) a p).1 [pk] a p).2, ok y = true
+
+end
+
 /-! ## Reply routing (`_QueryResponse`, `QueryHandler.async_response`/`handle_assembled_query`)
 
 Abstraction level: the answer sets `_answer_question` produced per strategy are inputs (C03 owns
